@@ -38,11 +38,18 @@ Definition tok_of (c : ccase) (s : string) : list (string * string) := assoc [] 
 
 (* the harmless commands the generators use: echo (prints its arguments), touch / true (print nothing),
    anything else fails (false, or no such program) *)
-Definition sh_model (cmd : string) : option string :=
+Definition sh_direct (cmd : string) : option string :=
   let (c, args) := split_command (trim_space cmd) in
   if String.eqb c "echo" then Some (join " " args)
   else if String.eqb c "touch" || String.eqb c "true" then Some ""
   else None.
+(* parameters are substituted through `sh -c <text>`: an empty script succeeds with no output *)
+Definition sh_model (cmd : string) : option string :=
+  if prefixb "sh -c " cmd then
+    let script := drop 6 cmd in
+    if is_empty (trim_space script) then Some "" else sh_direct script
+  else sh_direct cmd.
+Definition strip_sh (cmd : string) : string := if prefixb "sh -c " cmd then drop 6 cmd else cmd.
 
 (* ---- entry points ----------------------------------------------------------------------------------- *)
 (* 0 LoadYAML  1 LoadMetadata  2 LoadWithoutEval  3 Load *)
@@ -99,7 +106,7 @@ Fixpoint dedup_sorted (l : list string) : list string :=
   | _ => l
   end.
 Definition dexec (l : list effect) : list string :=
-  dlist (dedup_sorted (sort_strings (flat_map (fun x => match x with EExec s => [s] | _ => [] end) l))).
+  dlist (dedup_sorted (sort_strings (flat_map (fun x => match x with EExec s => [strip_sh s] | _ => [] end) l))).
 
 Definition dres (c : ccase) (ep : nat) (x : res dag * envt * list effect) : list string :=
   (match outcome x with
